@@ -30,6 +30,15 @@ def solves(r, n, equal_homog_share=0.3):
         if nd == 3:
             t.update(dy=d[2], ys=src[2])
         out.append(t)
+    # 3-D models elongated along one axis, source near the opposite end: rays must travel far along that axis
+    for sh in [(2, 2, 6), (2, 6, 2), (6, 2, 2), (3, 2, 5), (2, 3, 7)][: max(2, n // 4)]:
+        d0 = float(r.choice([1.0, 0.5]))
+        d = (d0, d0, d0)
+        v, kind = G.medium(r, sh, kind="homog")
+        src = tuple(float(r.uniform(0.1, 0.9)) * d0 for _ in range(3))
+        out.append({"op": "fteik3d", "slow": 1.0 / v, "dz": d0, "dx": d0, "dy": d0, "zs": src[0], "xs": src[1], "ys": src[2],
+                    "nsweep": 3, "grad": 1, "meta": {"shape": sh, "d": d, "medium": kind, "src": src, "cls": "interior",
+                                                     "equal": True, "elongated": True}})
     return out
 
 
@@ -41,9 +50,13 @@ def ray_requests(r, solve_tasks, sols, nray, honor):
         m = s["meta"]
         nd = len(m["shape"])
         axes = [m["d"][a] * np.arange(m["shape"][a] + 1) for a in range(nd)]
-        for _ in range(nray):
+        for kk in range(nray):
             ecls = str(r.choice(["cells", "cells", "line", "boundary", "corner", "source", "near"]))
-            if ecls == "cells":
+            if m.get("elongated") and kk < 3:
+                ecls = "farcell"
+            if ecls == "farcell":
+                end = [float(axes[a][-1]) - float(r.uniform(0.05, 0.6)) * m["d"][a] for a in range(nd)]
+            elif ecls == "cells":
                 end = [coord(r, axes[a], "cell") for a in range(nd)]
             elif ecls == "line":
                 end = [coord(r, axes[a], "node" if a == 0 else "cell") for a in range(nd)]
